@@ -31,6 +31,11 @@ func cluster() *proxyv1alpha1.UpstreamCluster { return clusterWith(proxyv1alpha1
 
 // clusterWith: the count schema's strategy is an operator-editable field; the counts the server holds for it must be
 // reclaimed whatever it says at the moment an instance dies
+func tbCount(name string) proxyv1alpha1.FlowControlSchema {
+	return proxyv1alpha1.FlowControlSchema{Name: name, Strategy: proxyv1alpha1.GlobalCountLimit, FlowControlSchemaConfiguration: proxyv1alpha1.FlowControlSchemaConfiguration{
+		TokenBucket: &proxyv1alpha1.TokenBucketFlowControlSchema{QPS: 1, Burst: 1}, GlobalTokenBucket: &proxyv1alpha1.TokenBucketFlowControlSchema{QPS: 10, Burst: 10}}}
+}
+
 func clusterWith(cStrategy proxyv1alpha1.LimitStrategy) *proxyv1alpha1.UpstreamCluster {
 	mif := func(n int32) *proxyv1alpha1.MaxRequestsInflightFlowControlSchema {
 		return &proxyv1alpha1.MaxRequestsInflightFlowControlSchema{Max: n}
@@ -40,6 +45,9 @@ func clusterWith(cStrategy proxyv1alpha1.LimitStrategy) *proxyv1alpha1.UpstreamC
 		FlowControl: proxyv1alpha1.FlowControl{Schemas: []proxyv1alpha1.FlowControlSchema{
 			{Name: "a", Strategy: proxyv1alpha1.GlobalAllocateLimit, FlowControlSchemaConfiguration: proxyv1alpha1.FlowControlSchemaConfiguration{MaxRequestsInflight: mif(1), GlobalMaxRequestsInflight: mif(40)}},
 			{Name: "c", Strategy: cStrategy, FlowControlSchemaConfiguration: proxyv1alpha1.FlowControlSchemaConfiguration{MaxRequestsInflight: mif(1), GlobalMaxRequestsInflight: mif(6)}},
+			// schemas of the other type next to them (whatever walks an upstream's flow controls meets these too - before or
+			// after "c", the store's map order decides)
+			tbCount("b1"), tbCount("b2"), tbCount("d1"), tbCount("d2"),
 		}}}}
 }
 
